@@ -89,7 +89,7 @@ def grouping(R, rep):
     tb = Terms(F, b, inline_depth=0)
     keys = []
     for i, t in b.calls():
-        if parse_callee(t["callee"])[2] == "entry" and "HashMap" in t["callee"]:
+        if parse_callee(t["callee"])[2] == "entry" and ("HashMap" in t["callee"] or "BTreeMap" in t["callee"]):
             k = tb.operand(t["args"][1])
             if isinstance(k, tuple) and k[0] == "tuple":
                 keys = [show(x) for x in k[1]]
@@ -111,20 +111,18 @@ def grouping(R, rep):
     for lb in F.bodies.values():
         if lb.id.startswith("cgt_core::matcher::acquisition_ledger::AcquisitionLedger::") and lb.kind == "method" and \
                 any("NaiveDate" in lb.local_ty(k + 1) for k in range(lb.argc)) and ("on_date" in lb.short or "for_date" in lb.short or "for_pool" in lb.short):
-            ltb = Terms(F, lb, inline_depth=0)
             eq = False
-            for s in lb.reachable():
-                sw = lb.term(s)
-                if sw["k"] == "switch":
-                    cnd = ltb.operand(sw["discr"])
-                    if isinstance(cnd, tuple) and cnd[0] == "cmp" and cnd[1] == "Eq" and (show(cnd[2]).endswith(".date") or show(cnd[3]).endswith(".date")):
-                        eq = True
-            for cid in F.children(lb.id):
-                cb = F.bodies[cid]
-                ct = Terms(F, cb, inline_depth=0)
-                for x in subterms(ct.local(0)):
-                    if isinstance(x, tuple) and x and x[0] == "cmp" and x[1] == "Eq" and ".date" in show(x):
-                        eq = True
+            rg = R.region(lb)
+            for hb in rg.bodies.values():
+                ht = R.terms(hb, 0)
+                conds = [ht.operand(hb.term(s)["discr"]) for s in hb.reachable() if hb.term(s)["k"] == "switch"]
+                if hb.kind == "closure":
+                    conds.append(ht.local(0))
+                for cnd in conds:
+                    for x in subterms(cnd):
+                        if isinstance(x, tuple) and x and x[0] == "cmp" and x[1] in ("Eq", "Ne") and \
+                                (show(x[2]).endswith(".date") or show(x[3]).endswith(".date")):
+                            eq = True
             rep.ob("R3", f"{lb.short}:all-lots-of-date", eq, "selects every lot of the date (date equality only), independent of lot order" if eq else
                    f"{lb.short} does not select lots by date equality", lb.loc(), key=f"R3:{lb.short}:date-select")
 
@@ -133,7 +131,7 @@ def cli_join(R, rep):
     F = R.F
     main = F.bodies.get("cgt_tool::main")
     cands = [b for b in F.bodies.values() if b.crate == "cgt_tool" and P.user_written(F, b) and
-             any(parse_callee(t["callee"])[2] == "join" for _, t in b.calls()) and any(t["callee"] == "std::fs::read_to_string" for _, t in b.calls())]
+             any(parse_callee(t["callee"])[2] == "join" for _, t in b.calls()) and "std::fs::read_to_string" in F.callgraph().get(b.id, ())]
     if len(cands) != 1:
         rep.unresolved("R4", "JOIN", f"{len(cands)} CLI functions read and join input files")
         return
